@@ -84,6 +84,29 @@ func genC06(tier, out string, sum *Summary) {
 	}
 	g := &Gen{Funcs: true, Arith: true, Lets: true, enumFuncs: true, mutFuncs: true}
 	c := &relCtx{sh: &Shards{dir: out, prop: "C06", imports: "Spec.RefAst Checks.Spec", ctype: "speccase", runner: "spec_run", per: 300}, sum: sum, dist: map[string]bool{}}
+	// the two entry points are the same function of the data, whatever its Go type: every notable leaf and
+	// typed Go collections that are not []any / map[string]any
+	{
+		vals := append(specialLeaves(), []map[string]any{{"name": "a"}, {"name": "b"}}, []string{"x", "y"}, map[string]string{"k": "v"}, map[string][]any{"k": {json.Number("1")}}, [][]any{{json.Number("1")}},
+			[]json.Number{"1", "2"}, []float64{1, 2}, map[string]json.Number{"k": "1"}, []map[string]string{{"k": "v"}}, [2]any{"a", "b"}, &[]any{"p"}, &map[string]any{"k": "v"})
+		for _, text := range []string{"@", "[0]", "k", "name", "[0].name", "type(@)", "keys(@)", "length(@)", "join(',', @)", "[?@]", "[*]", "*", "to_string(@)", "@ == @", "[?name == 'b'] | length(@)", "to_array(@)", "not_null(@, 'x')", "[@]", "!@", "@ == `null`", "values(@)", "[::-1]", "sort(@)", "@ || 'd'", "{v: @}", "length(@) > `0`", "a.b", "abs(@)", "[0] == [0]"} {
+			x, cerr := jmespath.Compile(text)
+			if cerr != nil {
+				continue
+			}
+			for _, v := range vals {
+				for _, doc := range []any{v, []any{v}, map[string]any{"a": v}} {
+					o1 := search(text, doc)
+					o2 := observe(func() (any, error) { return x.Search(doc) })
+					sum.count("entry-points")
+					same := o1.Kind == o2.Kind && (o1.Kind != "val" || sameAny(o1.Value, o2.Value)) && (o1.Kind != "err" || sameCats(o1.Cats, o2.Cats))
+					if !same {
+						sum.direct("reuse", text, doc, fmt.Sprintf("Search gives %s, Expression.Search gives %s", describe(o1), describe(o2)))
+					}
+				}
+			}
+		}
+	}
 	// MustCompile panics exactly when Compile fails: every static fault of the error-contract catalogue
 	// (syntax, arity, unknown function, expression-reference position, slice step) and every run-time one
 	for _, f := range c08Faults() {
@@ -277,4 +300,55 @@ func genC07(tier, out string, sum *Summary) {
 	sum.Cases = n
 	sum.Distinct = len(distinct)
 	sum.Rule = fmt.Sprintf("%d random expressions; for each, %d goroutines x %d rounds call Expression.Search on one shared compiled Expression, one-shot Search and Compile+Search, all on one shared document, under the Go race detector; every outcome must equal the sequential one; distinct = expressions with a non-null result", n, workers, rounds)
+}
+
+// equality of arbitrary Go values as results: JSON values by value (arrays obtained by enumeration up to order),
+// floats with NaN = NaN, functions / channels / pointers by identity, anything else structurally
+func sameAny(a, b any) bool {
+	if sameValue(a, b, true) {
+		return true
+	}
+	switch x := a.(type) {
+	case []any:
+		y, ok := b.([]any)
+		if !ok || len(x) != len(y) {
+			return false
+		}
+		for i := range x {
+			if !sameAny(x[i], y[i]) {
+				return false
+			}
+		}
+		return true
+	case map[string]any:
+		y, ok := b.(map[string]any)
+		if !ok || len(x) != len(y) {
+			return false
+		}
+		for k, v := range x {
+			w, ok := y[k]
+			if !ok || !sameAny(v, w) {
+				return false
+			}
+		}
+		return true
+	case float64:
+		y, ok := b.(float64)
+		return ok && (x == y || (x != x && y != y))
+	case float32:
+		y, ok := b.(float32)
+		return ok && (x == y || (x != x && y != y))
+	}
+	if a == nil || b == nil {
+		return a == nil && b == nil
+	}
+	va, vb := reflect.ValueOf(a), reflect.ValueOf(b)
+	if va.Type() != vb.Type() {
+		return false
+	}
+	switch va.Kind() {
+	case reflect.Func, reflect.Chan, reflect.UnsafePointer:
+		return va.Pointer() == vb.Pointer()
+	}
+	return reflect.DeepEqual(a, b)
 }
